@@ -195,6 +195,9 @@ def _header(nonce):
 
 
 _HDR_BY_HASH = {}
+_HDR_BY_SER = {}      # serialized header -> BlockHeader (cb.key)
+_BLK_CASES = {}       # op line -> the Block the implementation side is asked about (blk.root / blk.wc)
+_REAL_BLOCKS = {}     # block hash -> parsed block of the BIP158 vector file
 
 
 def _block_for(bh: bytes, outs, prevs):
@@ -297,7 +300,8 @@ def impl(line: str) -> str:
         if op == "f.build":
             outs = [unhx(x) for x in _uncsv(t[2])]
             prevs = [unhx(x) for x in _uncsv(t[3])]
-            f = BasicBlockFilter.from_block(_block_for(unhx(t[1]), outs, prevs), prevs)
+            real = _REAL_BLOCKS.get(unhx(t[1]))
+            f = BasicBlockFilter.from_block(real if real is not None else _block_for(unhx(t[1]), outs, prevs), prevs)
             return f"ok {f.element_count} {hx(f.encoded_set)}"
         if op == "f.hashes":
             try:
@@ -316,6 +320,32 @@ def impl(line: str) -> str:
             return "ok " + str(block_filter._hash_to_range(int(t[1]), int(t[2]), unhx(t[3]), int(t[4])))
         if op == "cb.shortid":
             return "ok " + str(cbm._short_id((int(t[1]), int(t[2])), unhx(t[3])))
+        if op == "cb.key":
+            hdr = _HDR_BY_SER[unhx(t[1])]
+            k0, k1 = CmpctBlock(hdr, int(t[2]), [], [], check_validity=False).short_id_key
+            return f"ok {k0} {k1}"
+        if op == "blk.root":
+            blk = _BLK_CASES[line]
+            try:
+                blk.assert_valid_merkle_root()
+            except Exception as e:  # noqa: BLE001
+                c = common.err_class(e)
+                m = str(e)
+                return "err " + (c if c != "value" else "root" if "invalid merkle root" in m else "duplicate"
+                                 if "duplicate transaction" in m else "empty" if "empty merkle tree" in m else "other:" + m[:40])
+            return "ok"
+        if op == "blk.wc":
+            blk = _BLK_CASES[line]
+            try:
+                blk.assert_valid_witness_commitment()
+            except Exception as e:  # noqa: BLE001
+                c = common.err_class(e)
+                m = str(e)
+                return "err " + (c if c != "value" else "unexpected" if "unexpected witness" in m else "nonce"
+                                 if "invalid witness nonce" in m else "commitment" if "commitment" in m else "other:" + m[:40])
+            return "ok"
+        if op == "pow.chainwork":
+            return common.call_impl(pw.chain_work, [unhx(x) for x in _uncsv(t[1])])
         if op == "cb.reconstruct":
             pool = [tuple(int(y) for y in x.split(":")) for x in _uncsv(t[3])]
             return _cb_reconstruct([int(x) for x in _uncsv(t[1])], [int(x) for x in _uncsv(t[2])], pool)
@@ -594,7 +624,30 @@ def _o_block_commitments(w):
     return True, f"{w['block']} ({len(txs)} txs) tx {i}"
 
 
+def _o_bip158_vector(w):
+    """one row of the BIP158 test-vector file: from_block(block, prev scripts) serializes to the recorded
+    filter, chains to the recorded header, matches every element, and parses back."""
+    from btclib.block.block_filter import filter_header
+    height, bh, blk_hex, prevs, prev_hdr, filt, hdr = w["row"][:7]
+    blk = Block.parse(bytes.fromhex(blk_hex), check_validity=False)
+    if blk.header.hash.hex() != bh:
+        return False, f"height {height}: block hash {blk.header.hash.hex()} instead of {bh}"
+    f = BasicBlockFilter.from_block(blk, [bytes.fromhex(x) for x in prevs])
+    if f.serialize().hex() != filt:
+        return False, f"height {height}: filter {f.serialize().hex()[:40]} instead of {filt[:40]}"
+    if f.header(bytes.fromhex(prev_hdr)).hex() != hdr or filter_header(f.hash, bytes.fromhex(prev_hdr)).hex() != hdr:
+        return False, f"height {height}: filter header differs from the vector"
+    g = BasicBlockFilter.parse(bytes.fromhex(filt), bytes.fromhex(bh))
+    if g != f:
+        return False, f"height {height}: parse(vector) != built filter"
+    for x in prevs:
+        if x and not f.match(bytes.fromhex(x)):
+            return False, f"height {height}: false negative on prev script {x}"
+    return True, f"height {height}: {f.element_count} elements"
+
+
 ORACLES = {
+    "bip158.vector": _o_bip158_vector,
     "block.commitments": _o_block_commitments,
     "pow.roundtrip": _o_pow_roundtrip,
     "pow.canonical": _o_pow_canonical,
@@ -826,12 +879,25 @@ def run(ctx):
         n = rng.choice([0, 1, 2, 3, 10, 50, rng.randrange(0, 200)])
         ctx.check("gcs.roundtrip", {"values": rand_sorted(rng, n, n * M), "bh": common.rand_bytes(rng, 32).hex()},
                   nontrivial=n > 0)
-    try:
-        import json
-        vec = json.load(open(os.path.join(_DATA, "blockfilters.json")))
-        ctx.note(f"BIP158 vector file present ({len(vec) - 1} rows): replayed by btclib's own tests, not here")
-    except Exception:  # noqa: BLE001
-        pass
+    import json
+    vec = json.load(open(os.path.join(_DATA, "blockfilters.json")))[1:]
+    ctx.exhaustive_streams.append(f"bip158.vectors: every row of tests/block/_data/blockfilters.json ({len(vec)} rows)")
+    vlines = []
+    for row in vec:
+        ctx.check("bip158.vector", {"row": row})
+        blk = Block.parse(bytes.fromhex(row[2]), check_validity=False)
+        _REAL_BLOCKS[blk.header.hash] = blk
+        outs = [o.script_pub_key.script for tx in blk.transactions for o in tx.vout]
+        line = f"f.build {hx(blk.header.hash)} {_csv(hx(x) for x in outs)} {_csv(hx(bytes.fromhex(x)) for x in row[3])}"
+        vlines.append(line)
+        # the model against the recorded filter itself (count as CompactSize < 253, then the set)
+        out = ctx.model(EXE, [line])
+        if out is not None:
+            n_, set_ = out[0].split(" ")[1:3]
+            ser = bytes([int(n_)]) + unhx(set_) if int(n_) < 253 else None
+            ctx.oracle("bip158.vector.model", ser is not None and ser.hex() == row[5],
+                       f"height {row[0]}: model filter {out[0][:60]} vs vector {row[5][:40]}", key="bip158.vector.model")
+    ctx.stream("filter.vectors", vlines)
 
     # ---------------------------------------------------------------- (d) compact blocks
     sid_lines, rec = [], []
@@ -860,5 +926,96 @@ def run(ctx):
         rec.append(f"cb.reconstruct {_csv(str(x) for x in pre)} {_csv(str(x) for x in sids)} "
                    f"{_csv(f'{s}:{t}' for s, t in pool)}")
     ctx.stream("cb.reconstruct", rec)
+    # short-id key of a message (sha256(header || nonce)) incl. the recorded pair of btclib's tests
+    big = _block("block_481824_complete.bin")
+    klines = []
+    for nonce in [0x0123456789ABCDEF, 0, 2**64 - 1] + [rng.getrandbits(64) for _ in range(ctx.n(20, 300))]:
+        hdr = big.header if nonce == 0x0123456789ABCDEF else rng.choice([big.header, _header(rng.getrandbits(32))])
+        ser = hdr.serialize(check_validity=False)
+        _HDR_BY_SER[ser] = hdr
+        klines.append(f"cb.key {hx(ser)} {nonce}")
+    ctx.stream("cb.key", klines)
+    # the pair and the short ids Core's test framework answers for block 481824 under that nonce (recorded in
+    # /repo/tests/p2p/compact_blocks_test.py)
+    keyed = CmpctBlock(big.header, 0x0123456789ABCDEF, [], [], check_validity=False)
+    got = (keyed.short_id_key, [keyed.short_id(big.transactions[i].hash) for i in (12, 14, 22)])
+    want = ((0xD38D02203181CC3D, 0xD86BC57836E4DE25), [0x541F7307BCCC, 0x2DBDFF2FFEDA, 0xFAC67E2868DF])
+    ctx.oracle("cb.recorded", got == want, f"short id key / ids of block 481824: {got} instead of {want}")
+
+    # ---------------------------------------------------------------- (e) block-level commitments, chain work
+    txs_all = big.transactions
+    rl, wl = [], []
+    for _ in range(ctx.n(120, 2500)):
+        k = rng.choice([0, 1, 2, 3, 4, 5, 7, 8, 13, rng.randrange(1, 40)])
+        sel = list(txs_all[:k])
+        r = rng.random()
+        if r < 0.15 and len(sel) > 1:
+            i, j = rng.sample(range(len(sel)), 2)
+            sel[i], sel[j] = sel[j], sel[i]
+        ids = [t.id[::-1] for t in sel]
+        good = merkle_root_and_mutated_from_hashes(ids, hash256)[0] if ids else b"\x00" * 32
+        listed = list(sel)
+        if 0.15 <= r < 0.35 and len(sel) >= 3:
+            listed = sel + [sel[-1]] if len(sel) % 2 else sel[:-1] + [sel[-2]]      # duplicated tail / equal last pair
+        elif 0.35 <= r < 0.45 and sel:
+            listed = sel[:-1]
+        root = good if r < 0.85 else common.rand_bytes(rng, 32)
+        hdr = copy.copy(big.header)
+        hdr.merkle_root = root[::-1]
+        b = Block(hdr, listed, check_validity=False)
+        line = f"blk.root h256 {hx(root)} {_csv(hx(t.id[::-1]) for t in listed)}"
+        _BLK_CASES[line] = b
+        rl.append(line)
+        # witness commitment over a synthetic coinbase and real transactions
+        from btclib.tx.tx_in import TxIn as _TxIn
+        from btclib.script import Witness
+        rest = list(txs_all[1:rng.choice([1, 2, 13, 15, 23, 24])])
+        if rng.random() < 0.15:
+            rest = [t for t in rest if not t.is_segwit]
+        wt = [hash256(t.serialize(include_witness=True, check_validity=False)) for t in rest]
+        nonce = common.rand_bytes(rng, 32)
+        wroot = merkle_root_and_mutated_from_hashes([b"\x00" * 32] + wt, hash256)[0]
+        commit = hash256(wroot + nonce)
+        pre = bytes.fromhex("6a24aa21a9ed")
+        q = rng.random()
+        scripts = [b"\x51", pre + commit]
+        stack = [nonce]
+        if q < 0.1:
+            scripts = [b"\x51"]
+        elif q < 0.2:
+            scripts = [pre + common.rand_bytes(rng, 32), pre + commit + b"\x01\x02"]     # last one wins, longer script
+        elif q < 0.3:
+            scripts = [pre + commit, pre + common.rand_bytes(rng, 32)]                   # last one wins: wrong
+        elif q < 0.38:
+            scripts = [pre + commit[:31]]                                                # too short to count
+        elif q < 0.46:
+            stack = [nonce[:31]]
+        elif q < 0.54:
+            stack = [nonce, nonce]
+        elif q < 0.6:
+            stack = []
+        elif q < 0.68:
+            scripts = [b"\x6a\x24\xaa\x21\xa9\xee" + commit, b"\x51"]
+        cb_in = _TxIn(OutPoint(b"\x00" * 32, 0xFFFFFFFF), b"\x51\x51", 0xFFFFFFFF, Witness(stack), check_validity=False)
+        cbtx = Tx(1, 0, [cb_in], [TxOut(0, sc, check_validity=False) for sc in scripts], check_validity=False)
+        wb = Block(copy.copy(big.header), [cbtx] + rest, check_validity=False)
+        line = (f"blk.wc h256 {wb.is_segwit} {_csv(hx(sc) for sc in scripts)} "
+                f"{_csv(hx(x) for x in stack)} {_csv(hx(x) for x in wt)}")
+        _BLK_CASES[line] = wb
+        wl.append(line)
+    ctx.stream("block.merkle_root", rl)
+    ctx.stream("block.witness_commitment", wl)
+    cw = []
+    for _ in range(ctx.n(300, 6000)):
+        n = rng.choice([0, 1, 2, 3, 6])
+        seq = [(rng.choice([0x1D00FFFF, 0x1B0404CB, 0x170331DB, 0x207FFFFF]) if rng.random() < 0.8 else rand_bits(rng)).to_bytes(4, "big")
+               for _ in range(n)]
+        if rng.random() < 0.05 and seq:
+            seq[rng.randrange(len(seq))] = common.rand_bytes(rng, rng.choice([0, 3, 5]))
+        if any(len(x) == 0 for x in seq):
+            continue
+        cw.append(f"pow.chainwork {_csv(hx(x) for x in seq)}")
+    ctx.stream("pow.chainwork", cw)
+
     for k in range(ctx.n(6, 60)):
         ctx.check("cb.fill", {"seed": rng.getrandbits(32), "n": rng.choice([1, 2, 5, 20, 60]), "nonce": rng.getrandbits(64)})
